@@ -356,6 +356,36 @@ DUPS['objs-in-spaced-srcdir'] = "executable('prog', files=['my dir/x.c', 'my dir
 DUPS['objs-in-dollar-target'] = "executable('my$prog', files=['x.c', 'x.cpp'])\n"
 
 
+# project(intermediate_dirs=False): implicit objects of different targets share the build
+# directory's top, so a source used by two targets names one object twice - whatever the
+# options of the two compilations are
+_NOINT = "project('p', intermediate_dirs=False)\n"
+DUPS['noint-shared-source'] = _NOINT + "executable('one', files=['a.c', 'x.c'])\n" \
+    "executable('two', files=['b.c', 'x.c'])\n"
+DUPS['noint-shared-source-other-options'] = _NOINT + \
+    "executable('one', files=['a.c', 'x.c'], compile_options=['-DWHO=1'])\n" \
+    "executable('two', files=['b.c', 'x.c'], compile_options=['-DWHO=2'])\n"
+DUPS['noint-shared-source-lib-exe'] = _NOINT + "static_library('l', files=['x.c'])\n" \
+    "executable('e', files=['a.c', 'x.c'])\n"
+DUPS['noint-same-stem-across-targets'] = _NOINT + "executable('one', files=['x.c'])\n" \
+    "executable('two', files=['x.cpp'])\n"
+DUPS['noint-object-file-and-implicit'] = _NOINT + "object_file(file='x.c')\n" \
+    "executable('t', files=['a.c', 'x.c'])\n"
+DUPS['noint-object-files-twice'] = _NOINT + "object_files(['a.c', 'x.c'])\n" \
+    "object_files(['x.c', 'b.c'], compile_options=['-DQ'])\n"
+# the very same declaration written twice (a rule table that "merges identical rules" accepts
+# these; the second declaration still names an existing output)
+DUPS['same-exe-twice'] = "executable('t', files=['a.c'])\n" * 2
+DUPS['same-obj-twice'] = "object_file('o', file='a.c')\n" * 2
+DUPS['same-obj-twice-other-options'] = "object_file('o', file='a.c')\n" \
+    "object_file('o', file='a.c', compile_options=['-DQ'])\n"
+DUPS['same-copy-twice'] = "copy_file('c.out', 'a.c')\n" * 2
+DUPS['same-step-twice'] = _step(['g.txt']) * 2
+DUPS['same-multi-step-twice'] = _step(['g.txt', 'h.txt']) * 2
+DUPS['same-lib-twice'] = "static_library('l', files=['a.c'])\n" * 2
+DUPS['same-pch-twice'] = "precompiled_header('pp', file='h.h')\n" * 2
+
+
 def run_dup(case, res):
     backend = case['backend']
     root = core.mkscratch('c05d')
@@ -363,7 +393,8 @@ def run_dup(case, res):
         src, bld = os.path.join(root, 'src'), os.path.join(root, 'bld')
         proj.write_tree(src, {'build.bfg': DUPS[case['flavour']], 'a.c': 'int a;\n',
                               'b.c': 'int b;\n', 'x.c': 'int x;\n', 'x.cpp': 'int xx;\n',
-                              'my dir/x.c': 'int x;\n', 'my dir/x.cpp': 'int xx;\n'})
+                              'my dir/x.c': 'int x;\n', 'my dir/x.cpp': 'int xx;\n',
+                              'h.h': '#define H\n'})
         env = core.base_env(proj.stub_toolchain_env())
         rc, out = proj.configure(src, bld, backend, env=env)
         res.evaluations = 1
